@@ -25,7 +25,9 @@ RULE = ("1..3 detection rules x 1..2 filters; detection names from {sel, filter,
         "; load stream: the documents in any order (filter documents before, between, after the rules), loaded by from_dicts / "
         "from_yaml / SigmaCollection(objects) / collect_filters + apply_filters, rules carrying metadata (status, level, date, "
         "tags, author, ...) and — loaded with collect_errors=True — metadata values that are collected as errors while log "
-        "source and detection stay valid")
+        "source and detection stay valid"
+        "; value stream: log source attributes on either side left out / null / empty string / non-empty (the empty string is a "
+        "specified value), filter log sources derived attribute-wise from a rule's; rule-list keyword 'any' in any letter case")
 ASSUMPTIONS = c01.ASSUMPTIONS[:2] + [
     "a rule selector whose pattern starts with '_' may capture the filter's internal names (recorded finding D10b); not generated except in its own sub-stream",
 ]
@@ -126,6 +128,62 @@ def gen_load(rnd, case):
     return case
 
 
+LS_ATTRS = ("category", "product", "service")
+LS_VALUES = {"category": ["c1", "c2"], "product": ["p1", "p2"], "service": ["s1", "s2"]}
+ANY_SPELLINGS = ["any", "Any", "ANY", "aNy", "anY"]
+
+
+def _ls_nonempty(rnd, ls):
+    """SigmaLogSource refuses a log source whose three attributes are all missing / null"""
+    if all(ls.get(k) is None for k in LS_ATTRS):
+        k = rnd.choice(LS_ATTRS)
+        ls[k] = rnd.choice(["", LS_VALUES[k][0]])
+    return ls
+
+
+def gen_ls_values(rnd):
+    """a log source whose attributes are each: left out, an explicit null (both: not specified), the empty string or a
+    non-empty string (both: a specified value)"""
+    ls = {}
+    for k in LS_ATTRS:
+        r = rnd.random()
+        if r < 0.35: continue
+        ls[k] = None if r < 0.45 else ("" if r < 0.65 else LS_VALUES[k][0] if r < 0.95 else LS_VALUES[k][1])
+    return _ls_nonempty(rnd, ls)
+
+
+def ls_related(rnd, base):
+    """a log source in some subset relation with `base`: attribute by attribute the same, left out, null, empty or another value"""
+    ls = {}
+    for k in LS_ATTRS:
+        r = rnd.random()
+        if r < 0.5:
+            if k in base: ls[k] = base[k]
+        elif r < 0.65: continue
+        elif r < 0.7: ls[k] = None
+        elif r < 0.87: ls[k] = ""
+        else: ls[k] = rnd.choice(LS_VALUES[k])
+    return _ls_nonempty(rnd, ls)
+
+
+def gen_values_case(rnd):
+    """attribute-value / keyword-spelling stream: the property says the filter's log source must cover the rule's (every
+    attribute the filter specifies — the empty string is a specified value, null is not — equals the rule's) and that the
+    rule list may be 'any' (a keyword: any letter case)"""
+    c = gen_case(rnd)
+    for r in c["rules"]:
+        keep = {k: v for k, v in r["logsource"].items() if k == "definition"}
+        r["logsource"] = {**gen_ls_values(rnd), **keep}
+    for f in c["filters"]:
+        keep = {k: v for k, v in f["logsource"].items() if k == "definition"}
+        f["logsource"] = {**ls_related(rnd, rnd.choice(c["rules"])["logsource"]), **keep}
+        if rnd.random() < 0.55:
+            f["filter"]["rules"] = rnd.choice(ANY_SPELLINGS)
+    if rnd.random() < 0.5:
+        gen_load(rnd, c)
+    return c
+
+
 def gen_cases(tier, seed, gen, effort):
     rnd = random.Random(seed * 6151 + 11)
     thorough = tier == "thorough"
@@ -143,6 +201,10 @@ def gen_cases(tier, seed, gen, effort):
     rnd2 = random.Random(seed * 7919 + 1111)
     for _ in range((700 if not thorough else 12000) * effort):
         cases.append(gen_load(rnd2, gen_case(rnd2)))
+    # attribute-value / keyword-spelling stream
+    rnd3 = random.Random(seed * 7919 + 1112)
+    for _ in range((700 if not thorough else 12000) * effort):
+        cases.append(gen_values_case(rnd3))
     return cases, False
 
 
